@@ -57,11 +57,13 @@ def body(c):
                 for m in (False, True):
                     S.append(dict(stage=st, signal=sg, victims=1, managed=m))
         S += [dict(stage="startup", signal="KILL", victims=1, managed=m, delay=dl) for m in (False, True) for dl in (0.0, 0.002, 0.01)]
+        S += [dict(stage="big_args", signal="KILL", victims=1, managed=False), dict(stage="big_args", signal="exit", victims=1, managed=True)]
         S += [dict(stage="idle_flag_window", signal="KILL", victims=1, managed=False), dict(stage="idle_flag_window", signal="KILL", victims=1, managed=True),
               dict(stage="task_start", signal="TERM", victims=2, managed=True), dict(stage="idle", signal="KILL", victims=2, managed=True),
               dict(stage="mid_task", signal="SEGV", victims=2, managed=False)]
     else:
         S += [dict(stage="idle_flag_window", signal=sg, victims=v, managed=m) for sg in ("KILL", "TERM") for v in (1, 2) for m in (False, True)]
+        S += [dict(stage="big_args", signal=sg, victims=v, managed=m) for sg in ("KILL", "TERM", "SEGV", "exit") for v in (1, 2) for m in (False, True)]
         S += [dict(stage="startup", signal=sg, victims=v, managed=m, delay=dl) for sg in ("KILL", "SEGV") for v in (1, 2) for m in (False, True) for dl in (0.0, 0.001, 0.003, 0.01, 0.03)]
         for st in stages:
             for sg in ("KILL", "TERM", "SEGV", "exit", "RT"):
@@ -102,7 +104,7 @@ def body(c):
                 c.violation(dict(key, problem="dead_pid_reused", call=nm), "C10: results claim to come from killed workers", {})
     c.traces_validated = len(S)
     c.rule = ("fault scenarios on the real loky backend, one driver process each: stage of the victim's life cycle (task start, mid-task external kill, argument "
-              "unpickling, result pickling, while sending a 60 MB result, idle between calls, during the start-up of the next call (kill 0-30 ms after the call began), idle with the manager thread pre-empted just before it flags the executor as broken while the next call submits, single-batch call on a cold executor) x signal (SIGKILL, SIGTERM, "
+              "unpickling, result pickling, while sending a 60 MB result, with 2 MiB task arguments all dispatched at once (feeder thread blocked on the call pipe), idle between calls, during the start-up of the next call (kill 0-30 ms after the call began), idle with the manager thread pre-empted just before it flags the executor as broken while the next call submits, single-batch call on a cold executor) x signal (SIGKILL, SIGTERM, "
               "SIGSEGV, os._exit, real-time signal) x victims (1, 2) x with/without a with-block; each scenario = calls A (healthy), B (fault), C (same object), "
               "D (new object); distinct = scenario")
     c.assumptions += ["watchdog 40 s per call (normal < 2 s)", "the 'while sending' stage is timing dependent (kill 50 ms after the task announced its return)"]
